@@ -20,6 +20,22 @@ CHECKS = {
    text="TLC checks that after drop/finish every worker exits (liveness) and that the number of live workers never exceeds the limit, for drops at every idle point of the call history; the real code is driven through tour, counter-example and randomized schedules and the runtime reports any thread still blocked at the end of a run and the maximum number of live workers.",
    ref="4.1, 5.1, 6/C10", note=MT_NOTE),
 }
+# checks defined by their own module: tools/checks/cNN.py with a module-level MANIFEST dict
+import importlib, sys
+sys.path.insert(0, f"{V}/tools")
+for p in props:
+    pid = p["id"]
+    if pid in CHECKS or not os.path.exists(f"{V}/tools/checks/{pid.lower()}.py"):
+        continue
+    try:
+        mod = importlib.import_module("checks." + pid.lower())
+        if hasattr(mod, "MANIFEST") and mod.MANIFEST.get("ready", True):
+            CHECKS[pid] = mod.MANIFEST
+    except Exception as e:
+        print("skip", pid, e)
+NA = {}
+if os.path.exists(f"{V}/not_applicable.json"):
+    NA = json.load(open(f"{V}/not_applicable.json"))
 PENDING = "check not built yet (build in progress, see DESIGN.md section 10)"
 
 m = {"version": 1,
@@ -42,10 +58,10 @@ for p in props:
                             "thorough_cmd": f"python3 tools/check.py {pid} --tier thorough",
                             "evidence_file": f"/verif/evidence/{pid}.json",
                             "replay_cmd_template": f"python3 tools/check.py {pid} --replay {{path}}",
-                            "engine": "tlc+vh",
+                            "engine": c.get("engine", "tlc+vh"),
                             "level_claimed": {"category": c["level"], "text": c["text"], "design_ref": c["ref"]},
                             "level_note": c["note"], "technique": c["technique"]})
     else:
-        m["not_applicable"].append({"property_id": pid, "reason": PENDING})
+        m["not_applicable"].append({"property_id": pid, "reason": NA.get(pid, PENDING)})
 json.dump(m, open(f"{V}/MANIFEST.json", "w"), indent=1)
 print("checks:", [c["property_id"] for c in m["checks"]], "pending:", len(m["not_applicable"]))
